@@ -461,6 +461,11 @@ func (lex *ExprLexer) lexChar(k TokenKind) *Token {
 // before the first call of this method. This method is stateful. Lexer advances offset by lexing
 // token. To get the offset, use Offset() method.
 func (lex *ExprLexer) Next() *Token {
+	if lex.start.Offset == 0 && strings.HasPrefix(lex.src, "\ufeff") {
+		// text/scanner silently skips BOM at the head of input. It is not a part of expression syntax
+		return lex.unexpected('\ufeff', "expression", expectedAllChars)
+	}
+
 	lex.skipWhite()
 
 	r := lex.scan.Peek()
